@@ -339,12 +339,18 @@ Fixpoint vm_of_params (ps : list (var * ty)) (m : vmap) : option vmap :=
   | (x, t) :: r => match vm_insert m x t with Some m' => vm_of_params r m' | None => None end
   end.
 
+(* validate_metadata: function costs are non-negative *)
+Definition cost_ok (f : func) : bool :=
+  match f_cost f with Some c => vnonneg c | None => true end.
+
 Definition init_ann (k : nat) (f : func) : option ann :=
-  match vm_of_params (f_params f) [] with
-  | Some m => Some {| a_vars := m; a_fn := k; a_conv := false;
-                      a_track := Enabled 0 None; a_wallet := f_cost f |}
-  | None => None
-  end.
+  if cost_ok f then
+    match vm_of_params (f_params f) [] with
+    | Some m => Some {| a_vars := m; a_fn := k; a_conv := false;
+                        a_track := Enabled 0 None; a_wallet := f_cost f |}
+    | None => None
+    end
+  else None.
 
 Fixpoint create (n : nat) (t : table) (k : nat) (fs : list func) : option table :=
   match fs with
